@@ -222,6 +222,59 @@ func runC11(r *core.Run) {
 				return h
 			}
 		})
+	// the same comparison on structured documents: every seed as it is, the 1-edit neighbourhood of the short ones, the
+	// nesting documents, and small tables with every cell content of the table check in every cell
+	{
+		var tdocs [][]byte
+		for _, c1 := range c17Contents {
+			for _, c2 := range c17Contents {
+				for _, al := range c17Aligns {
+					for placement := 0; placement < 4; placement++ {
+						tdocs = append(tdocs, []byte(place([]string{"|h|" + c1 + "|", "|" + al.delim + "|-|", "|" + c2 + "|" + c1 + "|", c2 + "|"}, placement)))
+					}
+				}
+			}
+		}
+		for _, e := range Seeds(r) {
+			tdocs = append(tdocs, []byte(e.Markdown))
+		}
+		members2 := []string{orders[0], orders[len(orders)-1], orders[len(orders)/2]}
+		var pairs sync.Map
+		get := func(g *core.Conv) []*core.Conv {
+			if v, ok := pairs.Load(g); ok {
+				return v.([]*core.Conv)
+			}
+			var cvs []*core.Conv
+			for _, o := range members2 {
+				cvs = append(cvs, core.NewConv(core.MustCfg(o)))
+			}
+			pairs.Store(g, cvs)
+			return cvs
+		}
+		fn := func(s *core.Sub, g *core.Conv, doc []byte) {
+			var tmp []byte
+			for _, cv := range get(g) {
+				c11Case(s, g, cv, doc, "gfm-members", &tmp)
+			}
+		}
+		s := r.Sub("gfm-vs-members/documents", fmt.Sprintf("%d documents (two-column tables with every pair of cell contents from %q, every alignment and placement; every spec example and every source of the repository's test-case files): R under extension.GFM == R under its four members in the orders %q", len(tdocs), c17Contents, members2))
+		core.ForEachIndex(len(tdocs), core.Workers(), func(w int) func(int) {
+			g := core.NewConv(core.MustCfg("gfm"))
+			return func(i int) {
+				fn(s, g, tdocs[i])
+				s.Distinct(core.Hash(tdocs[i]))
+				if i%(len(tdocs)/6+1) == 0 {
+					s.AddSample(core.Q(tdocs[i]))
+				}
+			}
+		}, r.Expired)
+		s.Bound = fmt.Sprintf("%d documents × %d orders", len(tdocs), len(members2))
+		s.States.Store(int64(len(tdocs)))
+		s.Transitions.Store(s.Evals.Load())
+		s.Done()
+		nbhdSub(r, "gfm-vs-members/nbhd", core.MustCfg("gfm"), fn)
+		nestSub(r, "gfm-vs-members/nesting", core.MustCfg("gfm"), core.Pick(r, 3, 4), fn)
+	}
 }
 
 func replayC11(r *core.Run, v *core.Violation) {
